@@ -37,23 +37,44 @@ let status_tok = function
   | S200 -> "200" | S301 -> "301" | S400 -> "400" | S404 -> "404" | S405 -> "405" | S500 -> "500"
   | SPanic -> "DROP" | SOther -> "OTHER"
 
+(* ---- JSON answers field by field (Model/Rest.v: jheader, jmessage, juimessage) *)
+let nstr n = string_of_int (int_of_n n)
+let hdr_tok (h : jheader) =
+  Printf.sprintf "k%d.%d.%d.%s.%s.%s.%s.%s" (int_of_nat h.jh_id) (int_of_z h.jh_millis) (int_of_z h.jh_date)
+    (nstr h.jh_from) (nstr h.jh_to) (nstr h.jh_subject) (nstr h.jh_size) (if h.jh_seen then "1" else "0")
+let headers_tok (l : jheader list) =
+  match l with
+  | [] -> "L@-:"
+  | h :: _ -> "L@" ^ field_of_str h.jh_mailbox ^ ":" ^ String.concat ";" (List.map hdr_tok l)
+let opt_tok = function None -> "none" | Some t -> nstr t
+let msg_tok (links : bool) (m : jmessage) =
+  hdr_tok m.jm_h ^ "|t" ^ nstr m.jm_text ^ "|h" ^ opt_tok m.jm_html
+  ^ "|H" ^ nstr m.jm_hdr_from ^ "." ^ nstr m.jm_hdr_to ^ "." ^ nstr m.jm_hdr_subject
+  ^ "|A" ^ String.concat ";" (List.map (fun a ->
+      if links then nstr a.ja_md5 ^ "@" ^ field_of_str a.ja_link_mb ^ "/" ^ field_of_str a.ja_link_id ^ "/" ^ nstr a.ja_link_num
+      else nstr a.ja_md5) m.jm_atts)
+let ui_tok (m : juimessage) =
+  hdr_tok m.ju_h ^ "|t" ^ nstr m.ju_text ^ "|h" ^ opt_tok m.ju_html
+  ^ "|H" ^ nstr m.ju_hdr_from ^ "." ^ nstr m.ju_hdr_to ^ "." ^ nstr m.ju_hdr_subject
+  ^ "|A" ^ String.concat ";" (List.map nstr m.ju_atts) ^ "|E" ^ nstr m.ju_errors
+
 let resp_tok ((s, p) : status * payload) =
   let st = status_tok s in
-  match p with
-  | PNone -> st
-  | POk -> st ^ "/OK"
-  | PList (mb, l) -> st ^ "/" ^ list_tok mb l
-  | PMsg (mb, v) -> st ^ "/M@" ^ field_of_str mb ^ ":" ^ view_tok v
-  | PUi (mb, v) -> st ^ "/U@" ^ field_of_str mb ^ ":" ^ view_tok v
-  | PSrc v -> st ^ "/S:" ^ tag_of v
-  | PHtml v -> st ^ "/H:" ^ (if has_html (snd v).m_tag then tag_of v else "none")
-  | PAtt (v, num) -> st ^ "/T:" ^ tag_of v ^ "." ^ string_of_int (int_of_n num)
-  | PLoc p -> st ^ "/" ^ field_of_str p
+  match render p with
+  | JNone -> st
+  | JOk -> st ^ "/OK"
+  | JHeaders l -> st ^ "/" ^ headers_tok l
+  | JMessage m -> st ^ "/M@" ^ field_of_str m.jm_h.jh_mailbox ^ ":" ^ msg_tok true m
+  | JUiMessage m -> st ^ "/U@" ^ field_of_str m.ju_h.jh_mailbox ^ ":" ^ ui_tok m
+  | JSource tag -> st ^ "/S:" ^ nstr tag
+  | JHtml t -> st ^ "/H:" ^ opt_tok t
+  | JAttachment (tag, num) -> st ^ "/T:" ^ nstr tag ^ "." ^ nstr num
+  | JLocation p -> st ^ "/" ^ field_of_str p
 
 let cres_tok = function
   | CErr -> "E" | COkUnit -> "U"
-  | COkList (mb, l) -> list_tok mb l
-  | COkMsg (mb, v) -> "M@" ^ field_of_str mb ^ ":" ^ view_tok v
+  | COkList (mb, l) -> headers_tok (List.map (jheader_of mb) l)
+  | COkMsg (mb, v) -> "M@" ^ field_of_str mb ^ ":" ^ msg_tok false (jmessage_of mb [] v)
   | COkSrc v -> "S:" ^ tag_of v
 
 let hout_tok = function
